@@ -474,14 +474,21 @@ class Unit:
         mask = mask_text(txt)
         pos = -1
         start = 0
+        alen = len(frm[0])
         for _ in range(frm[1]):
             pos = txt.find(frm[0], start)
             if pos < 0:
-                raise ExtractError('@@lift anchor lost in %s: `%s`' % (qual, frm[0]))
+                # whitespace-insensitive (an anchor that spans several source lines is written on one line in the .ctr)
+                rx = r'\s*'.join(re.escape(tok) for tok in frm[0].split())
+                mws = re.compile(rx).search(txt, start)
+                if not mws:
+                    raise ExtractError('@@lift anchor lost in %s: `%s`' % (qual, frm[0]))
+                pos = mws.start()
+                alen = mws.end() - mws.start()
             start = pos + 1
         # innermost enclosing block of the END of the anchor (an anchor ending in `{` selects the block it opens)
         depth = 0
-        j = pos + len(frm[0]) - 1
+        j = pos + alen - 1
         if mask[j] == '{':
             j += 1
         bopen = -1
@@ -498,7 +505,7 @@ class Unit:
         if bopen < 0:
             raise ExtractError('@@lift: no enclosing block')
         bclose = match_close(mask, bopen)
-        le = txt.find('\n', pos)
+        le = txt.find('\n', pos + alen - 1)
         body = txt[le + 1:bclose]
         notes = Notes()
         notes.add('R12', 'lifted tail of the block after `%s` of %s as fn %s%s' % (frm[0], qual, name, params))
